@@ -116,16 +116,16 @@ ADDED = {
  "C07": "Also: log-file lists are snapshot-first; UnLock clears the persisted mark only with removal. A pooled Lock object enters or leaves the pool with its persisted mark cleared.",
  "C08": "Also: values buffered only with records; readers never return io.ReadFull's error unmapped; oversized values written directly only with the record buffer empty. Readers return a constructed error only about a completely read item; the newest append file is cut back to whole records before appending (three reproduced crash-recovery defects were repaired). Something must truncate the value file after a torn value (known finding: nothing does).",
  "C09": "Also: receive ring >= queue capacity + 2; live append file touched only under the append mutex (a reproduced race was repaired); the ring examines all 16 id bytes.",
- "C10": "Also: the follower's only local answer needs the concurrent-check flag and Timeout == 0; replayed holds are marked persisted independent of role. Server.handle re-dispatches the request a protocol object had already read when the role changed under it.",
+ "C10": "Also: the follower's only local answer needs the concurrent-check flag and Timeout == 0; replayed holds are marked persisted independent of role. Server.handle re-dispatches the request a protocol object had already read when the role changed under it. The wake-up pass must test the role before granting (known finding: it does not).",
  "C11": "Also: a new ack table is recounted after publication; the queued timeout stays armed on the ack-pending wake-up path. ProcessLeaderPushLock tracks or fails a pending ack request on every return. The rollback clears the logged mark of every value object it restores.",
  "C12": "Also: the outstanding-commit marker is cleared only at a closed list of points. The log-position comparator weighs the id bytes the way the log writes them, file index major (a reproduced ordering defect was repaired).",
- "C13": "Also: parser upper bounds and the reply buffer's headroom by linear entailment; the recycled text reply is fully reassigned; fixed-capacity table indexes. Allocations sized by an integer decoded from the wire are bounded. Table indexes decoded from a client's message are bounded; slices of the stored frame bounded by request-supplied lengths stay within it; value-frame walkers are bounded by the frame (four reproduced crash inputs were repaired).",
+ "C13": "Also: parser upper bounds and the reply buffer's headroom by linear entailment; the recycled text reply is fully reassigned; fixed-capacity table indexes. Allocations sized by an integer decoded from the wire are bounded. Table indexes decoded from a client's message are bounded; slices of the stored frame bounded by request-supplied lengths stay within it; value-frame walkers are bounded by the frame (four reproduced crash inputs were repaired). GetValueOffset never points beyond the frame (reproduced crash inputs repaired).",
  "C14": "Also: parser cursors (two reproduced chunking defects repaired), key/id normaliser totality, converters define every wire field of the pooled command.",
- "C15": "Also: no aliasing of the stored value into results; the pre-operation value is read before it is cleared. Redis-style result writers say error only where the engine's result says so; a binary request's data frame is a private buffer. On a grant the key's depth is incremented before the value operation runs.",
+ "C15": "Also: no aliasing of the stored value into results; the pre-operation value is read before it is cleared. Redis-style result writers say error only where the engine's result says so; a binary request's data frame is a private buffer. On a grant the key's depth is incremented before the value operation runs. No comparison mixes the request-type and value-operation enumerations (known finding: PIPELINE).",
  "C16": "Also: replay quiescence is decided on the channels' queue counters (a reproduced start-up compaction race was repaired); nothing retired after publishing may be the published snapshot; log-file lists snapshot-first. HasLock reports a non-LOCK record gone only when no hold with its id exists. A compaction computes its input list once, before the load.",
  "C17": "Also: queue compaction and migration return the reference of every entry they drop. A function that answers a queued request itself tombstones it before scanning the wait queue.",
  "C18": "Also: AddProxy succeeds only after tracking the proxy. The code that registers a will does not return the registered command object to the pool. The will drain dispatches through the closing protocol object and every tracked proxy is repointed before the list is truncated; no reply is sent on the text reply channel once the connection is closed (a reproduced blocked Close was repaired).",
- "C03": "Also: the text protocol zeroes its request-id filter before handing a reply to the connection. UpdateLockedLock makes the request's command the hold's command on every path.",
+ "C03": "Also: the text protocol zeroes its request-id filter before handing a reply to the connection. UpdateLockedLock makes the request's command the hold's command on every path. Text handlers take the engine's answer out of the reply channel (a reproduced stale-reply defect of PUSH was repaired).",
  "C20": "Also: slice-and-cursor queues reset the cursor whenever the slice is re-based; the wait queue's overflow field and its mode sentinel change together.",
  "C19": "Also: acquire methods report success only for result 0; the client reader decodes every reply into a fresh object. Lock ids come from protocol.GenLockId only.",
 }
